@@ -64,7 +64,14 @@ class GotranCCodePrinter(C99CodePrinter):
         self._settings["contract"] = False
 
     def _print_Float(self, flt):
-        return self._print(str(float(flt)))
+        value = float(flt)
+        # A constant beyond the range of a double is infinite in double
+        # precision; str() would give the bare names "inf" / "nan"
+        if value != value:
+            return "NAN"
+        if value in (float("inf"), float("-inf")):
+            return "INFINITY" if value > 0 else "(-INFINITY)"
+        return self._print(str(value))
 
     def _print_Piecewise(self, expr):
         if isinstance(expr.args[0][0], Assignment):
